@@ -415,6 +415,8 @@ def compare(case, i, line, ir, mr):
             return 'eq(x, structural copy of x) is False'
         if kind(x) != kind(y):
             return 'eq is True although the container types differ (%s vs %s)' % (kind(x), kind(y))
+        if shape_of(x) != shape_of(y) or labels_of(x) != labels_of(y):
+            return 'eq is True although shape / index / columns differ'
         if plain(x) and plain(y):
             return 'eq(x, y) = %s but x == y is %s on NaN-free plain values' % (ir, dec(x) == dec(y))
     return ('divergence', 'implementation %s, model %s' % (ir, mr))
@@ -451,6 +453,16 @@ def shape_of(sx):
     return None
 
 
+def labels_of(sx):
+    """canonical axis labels of a pandas object (labels equal under python == coincide)"""
+    can = lambda ls: tuple(proto.canon_cell('T:' + a[3:] if a.startswith('PT:') else a) for a in ls)
+    if isinstance(sx, list) and sx[0] == 'S':
+        return (can(sx[1]),)
+    if isinstance(sx, list) and sx[0] == 'DF':
+        return (can(sx[1]), can(sx[2]))
+    return None
+
+
 def laws_on(U, label, full_triples=True, rng=None):
     n = len(U)
     P = [proto.parse(x) for x in U]
@@ -475,6 +487,8 @@ def laws_on(U, label, full_triples=True, rng=None):
             if m and kind(P[i]) == kind(P[j]) and shape_of(P[i]) != shape_of(P[j]):
                 yield Finding('violation', dict(tag='law-shape-' + label, lines=[line(i, j)]),
                               'eq is True although shapes / axis lengths differ (%s vs %s)' % (shape_of(P[i]), shape_of(P[j])))
+            if m and kind(P[i]) == kind(P[j]) and labels_of(P[i]) != labels_of(P[j]):
+                yield Finding('violation', dict(tag='law-labels-' + label, lines=[line(i, j)]), 'eq is True although index / columns differ')
             if plain(P[i]) and plain(P[j]):
                 native = dec(P[i]) == dec(P[j])
                 if m != native:
